@@ -190,7 +190,11 @@ func (q *ShardQueue) foreach() {
 		// completed before Close was called. The worker started by that Add (runNum
 		// is already 0) marks the queue closed when it exits; if Close has not been
 		// called yet, Close itself does once trigger is 0.
-		if atomic.LoadInt32(&q.state) != closing || atomic.LoadInt32(&q.trigger) > 0 || q.pending() {
+		// The order matters: shards first, trigger second (as in Close). A getter that has been
+		// added but not yet counted keeps its shard non-empty; one that a worker has swapped out
+		// but not yet dealt with keeps trigger above zero. Reading trigger first could miss the
+		// latter: zero before the Add counted, shard already swapped out when pending looks.
+		if atomic.LoadInt32(&q.state) != closing || q.pending() || atomic.LoadInt32(&q.trigger) > 0 {
 			return
 		}
 		// if state is closing, change it to closed
